@@ -3,7 +3,7 @@
    requests (any notes with any sequence numbers, publishes, deletions,
    permission changes, unloads, restarts, failing/crashing store calls). *)
 From Coq Require Import ZArith NArith List Bool.
-From Tinode Require Import Base.Util Pure.Acs Sys.Topic Sys.TopicTac Sys.TopicFrame Sys.TopicNum Sys.TopicNumThm Sys.TopicMarks.
+From Tinode Require Import Base.Util Pure.Acs Sys.Topic Sys.TopicTac Sys.TopicFrame Sys.TopicNum Sys.TopicNumThm Sys.TopicMarks Sys.TopicMono Sys.TopicCohMarks Sys.TopicCoh2.
 Import ListNotations.
 Open Scope Z_scope.
 
@@ -69,7 +69,118 @@ Theorem c09_info_audience : forall c skip what from seq sid fr,
   exists u bkg, In (sid, (u, bkg)) (c_sess c) /\ N.eqb sid skip = false /\ is_reader (user_mode c u) = true /\
                 (N.eqb what K_kp && N.eqb u from) = false.
 Proof. exact fanout_info_spec. Qed.
+
+(* Neither mark ever decreases: at every step of every history (any notes with any sequence
+   numbers, publishes, deletions, permission changes, failing store calls), for every user who
+   has a cache entry before and after the step (one subscription, topic loaded), both cached
+   marks after the step are at least what they were. *)
+Theorem c09_monotone : forall s h fo c c',
+  fresh s -> smarks_ok 0 s ->
+  let x := fst (run dr nr sm (mkState s None 0) h) in
+  ca x = Some c -> ca (fst (step_f dr nr sm x fo)) = Some c' ->
+  mono c c'.
+Proof.
+  intros s h fo c c' F M0 x Hc Hc'.
+  assert (inv_marks (mkState s None 0)) as I0.
+  { split; [apply fresh_inv; exact F|]. split; [|exact I]. destruct F as [_ E]. cbn [st]. rewrite E. exact M0. }
+  pose proof (run_inv_marks dr nr sm h _ I0) as IM. fold x in IM.
+  unfold step_f in Hc'. destruct (step dr nr sm (fst fo) x (snd fo)) as [x1 o1] eqn:ES.
+  destruct (fst fo) eqn:EF; cbn [fst ca] in Hc'; try discriminate;
+    eapply (step_mono dr nr sm _ x (snd fo)); eauto; rewrite ES; exact Hc'.
+Qed.
+
+(* ... and a request that is neither a publish nor a note leaves the marks of every such user
+   exactly as they were (sharper than c09_only_publish_and_note_move: an existing entry is never
+   replaced by a fresh one). *)
+Theorem c09_others_keep_marks : forall f x o c c',
+  ca x = Some c -> ca (fst (step dr nr sm f x o)) = Some c' ->
+  (forall sid a b, o <> OPub sid a b) -> (forall sid a b, o <> ONote sid a b) ->
+  same_marks c c'.
+Proof. intros. apply T_same. eapply (step_T dr nr sm); eauto. Qed.
+
+(* Every invalid note is dropped without any reply or side effect, session layer included:
+   unknown kind, typing note with a seq, read/recv with seq <= 0, and - once it reaches the topic
+   (attached session, or a recv routed through the hub) - seq beyond lastID, typing without W,
+   read/recv without R or without a subscription, read/recv not above the sender's current
+   mark (stale, duplicate): the request leaves store and cache as they were and produces no
+   frame for anybody. *)
+Theorem c09_invalid_silent : forall f s c n0 sid what seq,
+  note_dropped c (attached c sid) (sess_uid sm sid) what seq = true ->
+  step dr nr sm f (mkState s (Some c) n0) (ONote sid what seq) = (mkState s (Some c) 0, []).
+Proof. exact (step_note_silent dr nr sm). Qed.
+
+(* Topic not loaded: no note changes anything; the only possible output is the 409 that a
+   read / typing note from a session that is not attached gets. *)
+Theorem c09_note_unloaded : forall f s n0 sid what seq,
+  fst (step dr nr sm f (mkState s None n0) (ONote sid what seq)) = mkState s None 0 /\
+  (snd (step dr nr sm f (mkState s None n0) (ONote sid what seq)) = [] \/
+   snd (step dr nr sm f (mkState s None n0) (ONote sid what seq)) = [(sid, Ctrl 409 [])]).
+Proof. exact (step_note_unloaded dr nr sm). Qed.
+
+(* The STORED marks never decrease either.  [sk s u] is the subscription row of u as
+   SubscriptionGet returns it, reduced to (deleted, read, recv); [smono s s'] says: for every user
+   whose row is live in s and in s', neither stored mark is lower in s'.  This holds at every step
+   (request, with any failing or crashing store call) of every history from a store with one row
+   per user, provided the sessions that publish or send notes are logged in (uid 0 is "nobody":
+   in the store contract SubsUpdate with uid 0 means every subscription). *)
+Theorem c09_store_monotone : forall s h fo,
+  fresh s -> smarks_ok 0 s -> und s ->
+  Forall (fun fo => op_user_ok sm (snd fo)) h -> op_user_ok sm (snd fo) ->
+  let x := fst (run dr nr sm (mkState s None 0) h) in
+  smono (st x) (st (fst (step_f dr nr sm x fo))).
+Proof.
+  intros s h fo F M0 U OKh OKfo x.
+  assert (inv_marks (mkState s None 0)) as I0.
+  { split; [apply fresh_inv; exact F|]. split; [|exact I]. destruct F as [_ E]. cbn [st]. rewrite E. exact M0. }
+  assert (inv_coh (mkState s None 0)) as C0 by (split; [exact U|exact I]).
+  pose proof (run_inv_marks dr nr sm h _ I0) as IM. pose proof (run_coh dr nr sm h _ OKh I0 C0) as IC.
+  exact (proj2 (step_f_coh dr nr sm x fo OKfo IM IC)).
+Qed.
+
+(* The invariant behind it: in every reachable state with the topic loaded the store is not ahead
+   of the topic - every live subscription row has a cache entry whose marks are at least the stored
+   ones (they differ only through the recorded finding and through ignored store errors). *)
+Theorem c09_store_not_ahead : forall s h,
+  fresh s -> smarks_ok 0 s -> und s ->
+  Forall (fun fo => op_user_ok sm (snd fo)) h ->
+  let x := fst (run dr nr sm (mkState s None 0) h) in
+  und (st x) /\ match ca x with Some c => coh (st x) c | None => True end.
+Proof.
+  intros s h F M0 U OKh x.
+  assert (inv_marks (mkState s None 0)) as I0.
+  { split; [apply fresh_inv; exact F|]. split; [|exact I]. destruct F as [_ E]. cbn [st]. rewrite E. exact M0. }
+  assert (inv_coh (mkState s None 0)) as C0 by (split; [exact U|exact I]).
+  exact (run_coh dr nr sm h _ OKh I0 C0).
+Qed.
 End C09.
+
+(* the hypotheses of c09_store_monotone are satisfiable *)
+Example c09_store_monotone_hyps :
+  let s0 := ad_sub_create (ad_sub_create (mkStore true 0 0 0 47 0 [] [] [] [(1%N, 47%N); (2%N, 47%N)]) 1%N 255%N 255%N) 2%N 47%N 47%N in
+  fresh s0 /\ smarks_ok 0 s0 /\ und s0 /\
+  Forall (fun fo => op_user_ok [(1%N, 1%N); (2%N, 2%N)] (snd fo))
+         [(NoFault, OSub 1 [] false); (NoFault, OPub 1 7 false); (NoFault, ONote 2 K_read 1)].
+Proof.
+  cbn zeta. split; [split; reflexivity|]. split; [repeat constructor; cbn; discriminate|].
+  split; [unfold und; vm_compute; repeat constructor; cbn; intuition discriminate|].
+  repeat constructor; cbn; discriminate.
+Qed.
+
+(* handler-level form of the same fact, for every row of the list (hypothesis = the sender's stored
+   marks are not ahead of the cached ones, which c09_store_not_ahead establishes for reachable
+   states): the note handler never lowers a stored mark; rows of other users are untouched. *)
+Theorem c09_note_store_forward_partial : forall f s c n sid u what seq,
+  u <> 0%N ->
+  (forall r, In r (subs s) -> s_user r = u -> s_read r <= p_read (get_pud c u) /\ s_recv r <= p_recv (get_pud c u)) ->
+  Forall2 row_le (subs s) (subs (h_st (note f s c n sid u what seq))).
+Proof. exact note_store_forward. Qed.
+
+(* the hypotheses of c09_invalid_silent are satisfiable: a stale recv strictly between the read
+   and the received mark (the shape of a two-device client) is one of the dropped notes *)
+Example c09_stale_between_is_dropped :
+  let c := mkCache 8 0 1%N 47%N 0%N [(1%N, mkPud 255 255 8 8 0 1); (2%N, mkPud 47 47 3 6 0 1)] [(1%N, (1%N, false)); (2%N, (2%N, false))] in
+  note_dropped c true 2%N K_recv 5 = true /\ note_dropped c true 2%N K_recv 7 = false /\ note_dropped c true 2%N K_read 5 = false.
+Proof. repeat split; reflexivity. Qed.
 
 (* The full statement "read <= recv wherever stored" is REFUTED by the faithful model
    (known finding stored-read-le-recv): a read note from a reader who has not
@@ -90,9 +201,64 @@ Proof.
   inversion H as [|? ? _ H2]; subst. inversion H2 as [|? ? H3 _]; subst. apply H3. reflexivity.
 Qed.
 
+(* The full statement "a cached mark never decreases while the subscription lasts" is REFUTED
+   across a reload of the topic (same defect as stored-read-le-recv): a read note raises the
+   cached received mark but stores the read mark alone, so after unload + reload the cached
+   received mark is back at its stored value.  c09_monotone is the partial statement (topic
+   stays loaded). *)
+Definition no_unsub (fo : fault * op) : bool :=
+  match snd fo with OLeave _ true => false | ODelSub _ _ => false | _ => true end.
+Definition c09_cached_monotone_across_reload_statement : Prop :=
+  forall sm s h1 h2 c c', fresh s -> smarks_ok 0 s -> forallb no_unsub h2 = true ->
+    ca (fst (run (fun _ _ => None) (fun x => x) sm (mkState s None 0) h1)) = Some c ->
+    ca (fst (run (fun _ _ => None) (fun x => x) sm
+               (fst (run (fun _ _ => None) (fun x => x) sm (mkState s None 0) h1)) h2)) = Some c' ->
+    mono c c'.
+Theorem c09_cached_monotone_across_reload_refuted : ~ c09_cached_monotone_across_reload_statement.
+Proof.
+  intros H.
+  pose (s0 := ad_sub_create (ad_sub_create (mkStore true 0 0 0 47 0 [] [] [] [(1%N, 47%N); (2%N, 47%N)]) 1%N 255%N 255%N) 2%N 47%N 47%N).
+  pose (sm0 := [(1%N, 1%N); (2%N, 2%N)]).
+  pose (h1 := [(NoFault, OSub 1 [] false); (NoFault, OSub 2 [] false); (NoFault, OPub 1 7 false); (NoFault, ONote 2 K_read 1)]).
+  pose (h2 := [(NoFault, OLeave 1 false); (NoFault, OLeave 2 false); (NoFault, OUnload); (NoFault, OSub 2 [] false)]).
+  assert (fresh s0) as F by (split; reflexivity).
+  assert (smarks_ok 0 s0) as M by (repeat constructor; cbn; discriminate).
+  eassert (ca (fst (run (fun _ _ => None) (fun x => x) sm0 (mkState s0 None 0) h1)) = Some _) as E1
+    by (vm_compute; reflexivity).
+  eassert (ca (fst (run (fun _ _ => None) (fun x => x) sm0
+                      (fst (run (fun _ _ => None) (fun x => x) sm0 (mkState s0 None 0) h1)) h2)) = Some _) as E2
+    by (vm_compute; reflexivity).
+  pose proof (H sm0 s0 h1 h2 _ _ F M eq_refl E1 E2) as HM.
+  specialize (HM 2%N _ _ eq_refl eq_refl). destruct HM as [_ HM]. vm_compute in HM. apply HM. reflexivity.
+Qed.
+
 Print Assumptions c09_bounds.
 Print Assumptions c09_note.
 Print Assumptions c09_publish_marks.
 Print Assumptions c09_only_publish_and_note_move.
 Print Assumptions c09_info_audience.
 Print Assumptions c09_stored_read_le_recv_refuted.
+Print Assumptions c09_monotone.
+Print Assumptions c09_others_keep_marks.
+Print Assumptions c09_invalid_silent.
+Print Assumptions c09_note_unloaded.
+Print Assumptions c09_note_store_forward_partial.
+Print Assumptions c09_cached_monotone_across_reload_refuted.
+Print Assumptions c09_store_monotone.
+Print Assumptions c09_store_not_ahead.
+
+(* ---- audience of relayed notifications on topics WITH channel subscriptions (fan-out slice Sys/Fanout.v,
+   built for C02; the group-topic model above has no channel readers).  Re-stated here because the clause
+   "relayed notifications reach only attached sessions of users with read permission - never the originating
+   session, never channel readers, typing notes never any session of the typist" belongs to C09; the C09 check
+   runs the fan-out driver and the info-* laws on the implementation's frames (tools/props/c09.py relay_audience). *)
+From Tinode Require Import Sys.Fanout Sys.FanoutProofs.
+From Coq Require Import Permutation.
+
+Theorem c09_relay_exact_set : forall st ix,
+  Permutation (map fst (info_fanout st ix)) (map fst (filter (info_eligible st ix) (st_sess st))) /\
+  (wf_sess st -> NoDup (map fst (info_fanout st ix))) /\
+  (forall s, In s (map fst (info_fanout st ix)) <->
+             exists d, In (s, d) (st_sess st) /\ info_eligible st ix (s, d) = true).
+Proof. exact info_exact_set. Qed.
+Print Assumptions c09_relay_exact_set.
